@@ -197,6 +197,79 @@ Proof.
   rewrite He in H'. discriminate.
 Qed.
 
+(* ---------- case-only changes (review round 2) ---------- *)
+(* bech32_detects_4 excludes every substitution pattern that only changes the case of letters.  That
+   exclusion is wider than necessary: the decoder rejects every MIXED-case string, so the only case
+   variants of an accepted string that are accepted are its all-lower-case and all-upper-case forms. *)
+(* an accepted string is written in one case: it is its own lower-case or its own upper-case form *)
+Lemma decode_ok_pure_case s r : Bech32.decode s = Ok r -> s = map to_lower s \/ s = map to_upper s.
+Proof.
+  intros H. rewrite decode_eq in H. cbv zeta in H.
+  destruct (_ || _); [discriminate|]. destruct (negb (forallb _ _)); [discriminate|].
+  destruct (list_eqb s (map to_lower s)) eqn:El.
+  - left. apply list_eqb_eq. exact El.
+  - destruct (list_eqb s (map to_upper s)) eqn:Eu.
+    + right. apply list_eqb_eq. exact Eu.
+    + discriminate.
+Qed.
+
+Lemma to_upper_lower c : to_upper (to_lower c) = to_upper c.
+Proof.
+  unfold to_lower, to_upper.
+  destruct ((65 <=? c) && (c <=? 90)) eqn:E1.
+  - destruct ((97 <=? c + 32) && (c + 32 <=? 122)) eqn:E2; destruct ((97 <=? c) && (c <=? 122)) eqn:E3; lia.
+  - reflexivity.
+Qed.
+
+Lemma hamming_zero_eq a : forall b, length a = length b -> hamming a b = 0%nat -> a = b.
+Proof.
+  induction a as [|x a IH]; intros [|y b] Hl E; cbn [length hamming] in *; try lia; auto.
+  destruct (N.eqb_spec x y); [|lia]. subst. f_equal. apply IH; lia.
+Qed.
+
+Lemma upper_of_lower_eq s s' : map to_lower s' = map to_lower s -> map to_upper s' = map to_upper s.
+Proof.
+  intros Hl.
+  rewrite <- (map_ext _ _ to_upper_lower s'), <- (map_ext _ _ to_upper_lower s).
+  rewrite <- !(map_map to_lower to_upper). rewrite Hl. reflexivity.
+Qed.
+
+(* every case variant of an accepted string other than its two pure forms is rejected *)
+Theorem bech32_mixed_case_rejected : forall s s' r,
+  Bech32.decode s = Ok r -> map to_lower s' = map to_lower s ->
+  s' <> map to_lower s -> s' <> map to_upper s ->
+  exists e, Bech32.decode s' = Err e.
+Proof.
+  intros s s' r H Hl Hnl Hnu.
+  pose proof (upper_of_lower_eq s s' Hl) as Hu.
+  destruct (Bech32.decode s') as [r'|e|k] eqn:E'.
+  - exfalso. apply decode_ok_pure_case in E' as [E'|E'].
+    + apply Hnl. rewrite <- Hl. exact E'.
+    + apply Hnu. rewrite <- Hu. exact E'.
+  - exists e. reflexivity.
+  - exfalso. exact (decode_no_panic _ _ E').
+Qed.
+
+(* the detection theorem with the case exclusion narrowed to exactly what is accepted: the corrupted
+   string is rejected unless it is the all-lower-case or the all-upper-case form of the original *)
+Theorem bech32_detects_4_case : forall hrp data data' r,
+  Bech32.decode (hrp ++ 49 :: data) = Ok r -> ~ In 49 data ->
+  length data' = length data -> ~ In 49 data' ->
+  (hamming data data' <= 4)%nat ->
+  hrp ++ 49 :: data' <> map to_lower (hrp ++ 49 :: data) ->
+  hrp ++ 49 :: data' <> map to_upper (hrp ++ 49 :: data) ->
+  exists e, Bech32.decode (hrp ++ 49 :: data') = Err e.
+Proof.
+  intros hrp data data' r Hdec Hsep Hlen Hsep' Hh4 Hnl Hnu.
+  destruct (hamming (map to_lower data) (map to_lower data')) as [|k] eqn:Eh.
+  - (* only the case of some letters changed *)
+    assert (Hld : map to_lower data = map to_lower data').
+    { apply hamming_zero_eq; [rewrite !map_length; lia | exact Eh]. }
+    apply (bech32_mixed_case_rejected (hrp ++ 49 :: data) (hrp ++ 49 :: data') r Hdec); auto.
+    rewrite !map_app. cbn [map]. rewrite Hld. reflexivity.
+  - apply (bech32_detects_4 hrp data data' r); auto. lia.
+Qed.
+
 (* ---------- why the side conditions are there ---------- *)
 (* (a) upper-casing every letter gives the same address: "21q223gu6y" / "21Q223GU6Y" (hrp "2" has no
    letter, the data part has four): 4 substitutions, accepted, same decoded value.  CashAddr does
@@ -226,3 +299,4 @@ Qed.
 
 Print Assumptions bech32_detects_4.
 Print Assumptions bech32_min_distance_5.
+Print Assumptions bech32_detects_4_case.
